@@ -83,6 +83,15 @@ impl Filter {
         limit: Option<u32>,
         output: &'a mut [u8],
     ) -> Result<&'a Filter, Error> {
+        if ids.len() > 65535 {
+            return Err(InnerError::OutOfRange(ids.len()).into());
+        }
+        if authors.len() > 65535 {
+            return Err(InnerError::OutOfRange(authors.len()).into());
+        }
+        if kinds.len() > 65535 {
+            return Err(InnerError::OutOfRange(kinds.len()).into());
+        }
         let length = Self::output_size_needed(ids, authors, kinds, tags);
         if output.len() < length {
             return Err(InnerError::BufferTooSmall(length).into());
